@@ -857,3 +857,19 @@ def c03_13(ctx: Ctx):
                     found = (f, c)
         ctx.check(found is not None, fi, fi.node, f"{name}: a tail without terminator is linked to the physically next block",
                   why, key=f"C03.13::{name}::no-fallthrough-to-next-block")
+
+
+@rule("C05.10", ["C05", "C01"], "an edit accounts for every block that contains the edit point, not only the edited one", 1)
+def c05_10(ctx: Ctx):
+    fi = ctx.repo.func("_modify.edit.edit_byte_interval")
+    loops = [n for n in walk_no_nested(fi.node) if isinstance(n, ast.For) and src(n.iter) == "bi.blocks" and isinstance(n.target, ast.Name)]
+    if len(loops) != 1:
+        raise AnalysisError("edit_byte_interval: block loop not found")
+    lp = loops[0]
+    b = lp.target.id
+    tests = [n.test for n in ast.walk(lp) if isinstance(n, ast.If)]
+    straddle = [t for t in tests if f"{b}.size" in src(t)]
+    ctx.check(bool(straddle), fi, lp, "blocks that straddle the edit point are resized (or refused)",
+              f"the loop only shifts blocks with `{b}.offset >= offset`; a block that starts before the edit point and extends over it (an overlapping block other than the edited one) "
+              "keeps its size, so after a deletion it extends past the end of its byte interval (and after an insertion it no longer covers its last bytes)",
+              key="C05.10::edit_byte_interval::straddling-blocks")
